@@ -311,7 +311,11 @@ fn check_kept_records(cfg: &Config, out: &EvalOut, ri: usize, rep: &mut RunRepor
     let gv = &out.gv;
     let live = gv.live();
     for j in 0..gv.jobs.len() {
-        if !matches!(out.disp[j], Disp::UpstreamFailed | Disp::AbortedNeverStarted) || !live[j] {
+        // never started because an upstream failed (the simulator's own blocked set - independent of
+        // how the engine labels the job) or because the run was aborted
+        let never_started_interrupted = !out.started.contains(&j)
+            && (out.blocked.contains(&j) || matches!(out.disp[j], Disp::UpstreamFailed | Disp::AbortedNeverStarted));
+        if !never_started_interrupted || !live[j] {
             continue;
         }
         let job = &gv.jobs[j];
@@ -333,7 +337,7 @@ fn check_kept_records(cfg: &Config, out: &EvalOut, ri: usize, rep: &mut RunRepor
                     ri,
                     vec![v(
                         "C09",
-                        if out.disp[j] == Disp::UpstreamFailed { "upstream-failed-job-lost-records" } else { "never-started-aborted-job-lost-records" },
+                        if out.disp[j] == Disp::AbortedNeverStarted { "never-started-aborted-job-lost-records" } else { "upstream-failed-job-lost-records" },
                         format!(
                             "{} ({:?}) was never started ({:?}) but its record {} went from {} to {}",
                             job.id,
@@ -473,6 +477,12 @@ fn c09_resume(sc: &Scenario, pre: &World, plan: &EvalPlan, salt: u64, ri: usize,
             ip.sched_seed = r.next_u64() >> 1;
         }
         c09_triple(sc, pre, &u, &ip, salt, ri, rep, k);
+    }
+    {
+        // a late failure: every validated Ephemeral that is re-executed fails
+        let mut ip = uplan.clone();
+        ip.fail_validated_eph = Some(*r.pick(&[Leave::Garbage, Leave::Untouched, Leave::Removed]));
+        c09_triple(sc, pre, &u, &ip, salt, ri, rep, 9);
     }
     // abort sweep over the prefixes of the uninterrupted schedule
     let len = u.n_actions;
